@@ -530,7 +530,8 @@ def findD (fuel : Nat) (root : Val) (sp : Pos) (ps entry : Bool) (toks : List St
           | some _ =>
             findD fuel root sp ps false (bracket (sTextFn ++ op ++ condValStr v) :: ['.', '.'] :: rest)
               (childRef root par (.key k)) rl (found ++ slash ++ k)
-        | _ => .error .IndexError
+        -- a single value has no keys: NOT FOUND (fix C06-h; it was IndexError, which left the `[*]` loop of the other parents)
+        | _ => .ok (root, { parent := par, nameIdx := Option.none, value := Val.none, found := found, notFound := some (tok :: rest) })
 
 /-- the `for next_node_name in parent_node` loop of the `*` name step -/
 def starKeys (fuel : Nat) (root : Val) (sp : Pos) (ps : Bool) (keys : List Str) (toks : List Str) (par : PRef) (rl : Bool)
